@@ -9,6 +9,8 @@ Open Scope Z_scope.
 (* one constructor per Python exception class that can arise inside the parser *)
 Inductive exn :=
 | IndexError | ValueError | OverflowError | AssertionError | TypeError | UnboundLocalError
+| ValueErrorNoStr   (* a ValueError whose str() itself raises ValueError: calendar.IllegalMonthError
+                       carrying an int with more digits than sys.get_int_max_str_digits() *)
 | OutOfFuel.
 
 Inductive R (A : Type) : Type := Ok (a : A) | Err (e : exn).
@@ -199,6 +201,14 @@ Definition convertyear (cur : Z) (year : Z) (century_specified : bool) : R Z :=
     else Ok y
   else Ok year.
 
-(* calendar.monthrange(y, m)[1]; IllegalMonthError is a ValueError *)
+(* str(n) raises ValueError for ints with more than sys.get_int_max_str_digits() digits *)
+(* (the first comparison is implied by the second; it only keeps the extracted code from
+   computing 10^4300 for small n) *)
+Definition str_limit_hit (n : Z) : bool :=
+  negb (int_max_str_digits =? 0) && (10 ^ Z.min int_max_str_digits 18 <=? Z.abs n)
+  && (10 ^ int_max_str_digits <=? Z.abs n).
+
+(* calendar.monthrange(y, m)[1]; IllegalMonthError(m) is a ValueError whose message formats m *)
 Definition monthlen (y m : Z) : R Z :=
-  if (1 <=? m) && (m <=? 12) then Ok (dim y m) else Err ValueError.
+  if (1 <=? m) && (m <=? 12) then Ok (dim y m)
+  else if str_limit_hit m then Err ValueErrorNoStr else Err ValueError.
